@@ -34,11 +34,11 @@ type Op struct {
 
 // Case is a generated history plus schedule.
 type Case struct {
-	State   bool   `json:"state"`   // StateRoutineContainer
-	Compare bool   `json:"compare"` // state container has an equality function
-	Retry   []int  `json:"retry"`   // scripted back-off in ms (-1 = Stop); empty = no retry
+	State   bool   `json:"state"`             // StateRoutineContainer
+	Compare bool   `json:"compare"`           // state container has an equality function
+	Retry   []int  `json:"retry"`             // scripted back-off in ms (-1 = Stop); empty = no retry
 	Disable string `json:"disable,omitempty"` // a later option switches retrying off again: "" | retrynil (WithRetry(nil)) | backoffnil (WithBackoff(nil))
-	Full    bool   `json:"full"`    // settle fully after every op (sequential history)
+	Full    bool   `json:"full"`              // settle fully after every op (sequential history)
 	Ops     []Op   `json:"ops"`
 	Sched   []byte `json:"sched"`
 }
